@@ -106,7 +106,7 @@ META = {
         engine="props", design_ref="3/C09",
         technique="generated concurrent workloads compared with fresh-instance results, run under the Go race detector (rapid)",
         level="Workloads of 2-16 goroutines (after a sequential history) call ParseString (also with AllowTrailing or Trace)/ParseBytes/Parse/Lex/String/LexString on shared generated "
-              "parsers, back-reference definitions, a two-mapper parser, the package-level ebnf parser and ported example parsers; every result, "
+              "parsers, back-reference definitions (one- and two-group closers), a two-mapper parser, a parser with three all-token mappers in front of per-type mappers, the package-level ebnf parser and ported example parsers; every result, "
               "compared after all goroutines finished, must deep-equal the result of the same call on a fresh instance, the race detector must "
               "stay silent and every call must return (goroutines still blocked after 120 s are reported as a deadlock). Exploration of workloads; interleavings are whatever the Go scheduler produces.",
         note="The harness does not own the scheduler: this is evidence, not coverage, of interleavings; the race detector only sees conflicting accesses "
